@@ -951,3 +951,20 @@ package mqtt
 //@ ensures[C06] old(e.Client.bigMessage) != e ==> err != nil && message == nil && rx_pos(e.Client.bufr) == old(rx_pos(e.Client.bufr))
 //@ ensures[C06] old(e.Client.bigMessage) == e ==> e.Client.bigMessage == nil
 //@ ensures[C06] err == nil ==> len(message) == e.Size && fresh(message) && rx_pos(e.Client.bufr) == old(rx_pos(e.Client.bufr)) + e.Size && forall(k, 0, len(message), message[k] == rx_stream(e.Client.bufr)[old(rx_pos(e.Client.bufr)) + k])
+
+// Session constructors establish what ReadSlices and the requests rely on.
+//@ func mqtt.initSession -> client, err
+//@ requires p != nil && c != nil
+//@ ensures[C18,C10] err == nil ==> client != nil && client.persistence == p && client.readConn == nil && client.bufr == nil
+//@ ensures[C18,C10] err == nil ==> rdinv(client)
+//@ ensures[C18,C10,reveal=flatlen_] err == nil ==> rdmaps(client)
+//@ ensures[C18,C09,reveal=flatlen_] err == nil ==> st_has(p, 0) && st_len(p, 0) == len(clientID) && len(clientID) <= 65535
+//@ ensures[C18] err != nil ==> client == nil
+//@ func mqtt.InitSession -> client, err
+//@ requires p != nil && c != nil
+//@ ensures[C18,C10] err == nil ==> client != nil && rdinv(client) && rdmaps(client) && client.readConn == nil && client.bufr == nil
+//@ ensures[C18] err != nil ==> client == nil
+//@ func mqtt.VolatileSession -> client, err
+//@ requires c != nil
+//@ ensures[C18,C10] err == nil ==> client != nil && rdinv(client) && rdmaps(client) && client.readConn == nil && client.bufr == nil
+//@ ensures[C18] err != nil ==> client == nil
